@@ -106,6 +106,16 @@ CHECKS["C13"] = dict(
     ref="DESIGN.md section 4, C13",
 )
 
+CHECKS["C20"] = dict(
+    category="exploration",
+    technique="bounded-exhaustive enumeration of texts x offsets/spans and of layouts (deviation-bounded) of fixed token sequences; positions computed by construction",
+    text="Every text up to the length bound over {a, newline} with every offset and span, and every placement of up to 2 (3) deviating "
+         "gaps plus leading text for token sequences covering each located construct: node ranges, parent hulls and the redeclaration "
+         "diagnostic are compared with positions the layout renderer knows by construction.",
+    note="Trusted: the layout renderer and the reference line counter. The printed convention (1-based, end-exclusive) is taken as given.",
+    ref="DESIGN.md section 4, C20",
+)
+
 PENDING = {}
 
 
